@@ -392,6 +392,24 @@ def quotaSet (s : State) (n parent : Nat) (isParent lent : Bool) (mx mn : RL) : 
     else if q.parent ≠ parent then reparent s q parent isParent lent mx mn
     else resetAll (quotaMeta s n isParent lent mx mn)
 
+/-- `quotav1.Equals(a, b)` over the dimensions of the world: the same keys with the same values.  An entry whose
+    value is zero is an entry (`{cpu, gpu: 0}` and `{cpu}` differ). -/
+def rlEq (D : Nat) (a b : RL) : Bool := (List.range D).all fun d => a d == b d
+
+/-- `QuotaInfo.IsQuotaChange(new)`: allow-lent, is-parent, parent name, then `Equals` on Max, Min and SharedWeight
+    (`extension.GetSharedWeight` = a copy of Max unless the annotation is set, which no modelled history does, so the
+    third comparison repeats the first).  This is the "is the update applied at all" gate of `Plugin.OnQuotaUpdate`
+    and of `GroupQuotaManager.UpdateQuota` (hook plugins absent: `isQuotaUpdatedNoLock` = false). -/
+def isQuotaChange (D : Nat) (q : Quota) (parent : Nat) (isParent lent : Bool) (mx mn : RL) : Bool :=
+  q.lent != lent || q.isParent != isParent || q.parent != parent || !rlEq D q.max mx || !rlEq D q.min mn
+
+/-- `Plugin.OnQuotaAdd` / `Plugin.OnQuotaUpdate(old, new)` → `UpdateQuota(new)`: an unknown group is added; for a known
+    one the update is dropped ("quota not change") unless `IsQuotaChange`, else dispatched as `quotaSet`. -/
+def quotaUpdate (s : State) (n parent : Nat) (isParent lent : Bool) (mx mn : RL) : State :=
+  match findQ s.quotas n with
+  | none => quotaSet s n parent isParent lent mx mn
+  | some q => if isQuotaChange s.dims q parent isParent lent mx mn then quotaSet s n parent isParent lent mx mn else s
+
 /-- `RefreshRuntime` wrote a new `CalculateInfo.Runtime` (value supplied by the environment). -/
 def setRuntime (s : State) (n : Nat) (r : RL) : State :=
   { s with quotas := s.quotas.map fun q => if q.name = n then { q with runtime := r } else q }
